@@ -205,6 +205,23 @@ def sparse_renumber(mol, rng):
     return m
 
 
+def rebuilt_hydrogens(prod):
+    """implicit hydrogens of a molecule rebuilt from scratch (add_atom / add_bond inside one transaction) from the atoms and
+    bonds of `prod`: what the library's valence rules give for this structure, whatever _patcher stored.  {} if the rebuild fails"""
+    from chython.containers import MoleculeContainer
+    from chython.periodictable import Element
+    try:
+        m = MoleculeContainer()
+        with m:
+            for n, a in prod.atoms():
+                m.add_atom(Element.from_atomic_number(a.atomic_number)(a.isotope, charge=a.charge, is_radical=a.is_radical), n)
+            for n, k, bd in prod.bonds():
+                m.add_bond(n, k, int(bd))
+        return {n: a.implicit_hydrogens for n, a in m.atoms()}
+    except Exception:
+        return {}
+
+
 def bonds_of(mol):
     return {n: list(nb) for n, nb in mol._bonds.items()}
 
@@ -540,11 +557,16 @@ SYNTHETIC = [
     ('[13C:1]', '[C:1]', 'isotope dropped by re-typing'),
     ('[C;D1:1]', '[14C:1]', 'isotope requested on a re-typed atom'),
     ('[O-:1][C:2]', '[A:1][A:2]', 'any-atom: requested charge 0 replaces the charge of the match'),
+    ('[C:1][Br,Cl:2]', 'mol:[CH3:1][OH:2]', 'Element replacement on matched atoms that carry unnamed neighbours (H must be recalculated)'),
+    ('[C:1][O:2]', '[C:1][O;h1:2]', 'query atom with an h clause on a matched atom (the clause is for new atoms only)'),
+    ('[C:1][N:2]', 'mol:[CH3:1][NH2:2].[OH2:5]', 'Element replacement: matched atoms recalculated, new atom keeps its H'),
+    ('[C:1]=[O:2]', '[C:1](-[O;h1:2])-[O;h1:3]', 'h clauses: matched atom recalculated, new atom takes the clause'),
 ]
 CISTRANS = ['C/C=C/CO', 'F/C=C\\Cl', 'C/C=C\\CCO', 'OC/C=C/C=C/C', 'CC=[C@]=CCO', 'C/C=C/C(=O)OCC', 'N/C(C)=C/CCl', 'OCC=[C@@]=CC', 'C/C=C/CN', 'Cl/C=C/CCBr',
             'C/C(Cl)=C/CC#N', 'O/C=C/C[N+](C)(C)C']
 STEREO = ['C[C@H](N)C(=O)O', 'C[C@@H](O)CC(=O)OCC', 'C[C@@H]1CC[C@H](O)CC1', 'OC[C@H]1O[C@@H](O)[C@H](O)[C@@H](O)[C@@H]1O', 'N[C@@H](CO)C(=O)O',
           'C[C@H](Cl)CCOC', 'CC(C)C[C@H](NC(C)=O)C(=O)O', 'Br[C@H](C)CC#N', 'C[C@@H](N)Cc1ccc(Cl)cc1', 'CCO[C@H](C)C(N)=O']
+HALIDES = ['CCBr', 'CC(C)Br', 'CC(C)(C)Br', 'BrC1CCCCC1', 'ClCCCl', 'CC(Cl)CBr', 'CCOCC', 'CN(C)C', 'CC(=O)C', 'CCNCC']
 DECORATED = ['C[N+](C)(C)CC(=O)[O-]', 'C[CH]O |^1:1|', '[13CH3]CO', 'CC(=O)[O-].[Na+]', '[O-][N+](=O)c1ccccc1', '[13CH3][13CH2]O', 'C[CH]C[O-] |^1:1|',
              'C[NH3+].[Cl-]', '[2H]C([2H])([2H])O']
 
@@ -568,15 +590,17 @@ def patch_case(ck, batch, t, structure, mapping, tag, describe):
     before = pairs(mapping)
     m_term = batch.define('m', coqmol.mol_term(structure))
     t_term = batch.define('t', tpl_term(t._replacement))
+    rebuilt = '[]'
     try:
         new = t._patcher(structure, mapping)
         res = f'Ok ({coqmol.mol_term(new)}, {pairs(mapping)})'
         ok = True
+        rebuilt = lst([tup(zraw(n), opt(h, zraw)) for n, h in rebuilt_hydrogens(new).items()])
     except Exception as e:
         res = exn(e)
         ok = False
         new = None
-    batch.add(f'patch_res_eqb (patcher_with {MODEL_FUNCTION} {m_term} {before} {zl(to_del)} {t_term}) ({res})',
+    batch.add(f'patch_res_h_eqb {rebuilt} (patcher_with {MODEL_FUNCTION} {m_term} {before} {zl(to_del)} {t_term}) ({res})',
               {'kind': tag, 'input': describe, 'observed': res[:200]}, ctx=(t, structure, dict(mapping0), describe))
     if new is not None:
         # untouched stereogenic tetrahedrons: order of the environment and the label of the product (fix_stereo may only drop it)
@@ -632,7 +656,7 @@ def corr_patcher(ck):
     small = ['CCO', 'CC(=O)O', 'CCN', 'NCCO', 'CCOCC', 'c1ccccc1Cl', 'CC(=O)OCC', 'C1N2CC1C2', 'C1N(F)N(C1)Cl', 'OC1CC2CC1C2', 'CC#N',
              'C[N+](C)(C)CC(=O)[O-]', 'CC(N)C(=O)O', 'Brc1ccc(O)cc1', 'C[C@H](N)C(=O)O', 'C/C=C/CO', 'OCC1CO1', 'CC(C)OCc1ccccc1',
              '[13CH3]CO', 'CCO.CCN', 'C[CH]O |^1:1|', 'NN', 'CN(C)N', 'O', 'CO']
-    pool = CISTRANS + small + DECORATED + STEREO + corpus.sample(corpus.lipo(), 40 if quick else 400, ck.seed, 'c16p')
+    pool = CISTRANS + HALIDES + small + DECORATED + STEREO + corpus.sample(corpus.lipo(), 40 if quick else 400, ck.seed, 'c16p')
     mols = []
     for smi in pool:
         try:
@@ -1028,6 +1052,8 @@ QUEUE_TEMPLATES = [
     (('[C:1](=[O:2])[O;D1:3]', '[N;D1:4][C:5]'), ('[A:1](=[A:2])[A:4][A:5].[A:3]',), [('CC(=O)O', 'NCC'), ('OC(=O)CC(=O)O', 'NCCN'), ('CC(=O)O', 'NC', 'CCCCCC')], 2),
     (('[C:1][Br:2]', '[O;D1:3][C:4]'), ('[A:1][A:3][A:4]', '[Br-:2]'), [('CCBr', 'OC'), ('BrCCBr', 'OCCO')], 2),
     (('[C:1][O;D1:2]',), ('[A:1][A:2][C:3]',), [('OCCO',), ('OCC(O)CO', 'C')], 3),
+    # several separate reactant molecules that all match a one-pattern template: every one of them has to be chosen again
+    (('[C:1][Br:2]',), ('[A:1][O:3]',), [('CCBr', 'BrCCCBr'), ('CCBr', 'CCCBr', 'C'), ('CBr', 'CCBr', 'BrCCBr')], 4),
 ]
 
 
@@ -1111,18 +1137,22 @@ def corr_queue(ck):
                         prods = list(r.products)
                         for i in range(len(prods)):
                             cands.append(prods[:i] + prods[i + 1:])
-                some = next(iter(orders))
-                stage_t.append(tup(tup(tl(rec['ctoks']), tl(sorted(some))), tup(lst([tl(x) for x in rec['otoks']]), rec['exc'])))
+                # the real call sees only the atom SET of the ignored molecules: every ordered candidate with that set gets the entry
+                for itoks in orders:
+                    stage_t.append(tup(tup(tl(rec['ctoks']), tl(sorted(itoks))), tup(lst([tl(x) for x in rec['otoks']]), rec['exc'])))
             if lost:
                 ck.count('queue:calls whose ignored list could not be reconstructed', lost)
                 continue
             operm_t = [tup(tl(i), lst([tl(p) for p in permutations(o, len(pats))])) for i, o in overlaps[1:]]
             yields = lst([tl([tok(x) for x in r.products]) for r in real])
             nprod = len(rx._products_atoms)
-            batch.add(f'exh_eqb (exhaustive Z Z Z.eqb (fun ch ign => tab2 {lst(stage_t)} ch (zsort ign) ([], None)) (fun nw ign => tab2 {lst(finish_t)} nw ign []) '
-                      f'(fun p => tab1 {lst(key_t)} p (-1)) (fun ms => tab1 {lst(operm_t)} ms []) {len(pats)}%nat {nprod}%nat {limit}%nat {tl([tok(m) for m in structures])} 3000%nat) ({yields}, {e})',
-                      {'kind': 'Reactor.__call__ one_shot=False', 'patterns': pats, 'products': prods_t, 'reactants': rs, 'limit': limit,
-                       'stage_calls': len(calls), 'yielded': len(real), 'molecules': len(toks)})
+            funs = (f'(fun ch ign => tab2 {lst(stage_t)} ch (zsort ign) ([], Some OtherError)) (fun nw ign => tab2 {lst(finish_t)} nw ign []) '
+                    f'(fun p => tab1 {lst(key_t)} p (-1)) (fun ms => tab1 {lst(operm_t)} ms []) {len(pats)}%nat {nprod}%nat {limit}%nat {tl([tok(m) for m in structures])} 3000%nat')
+            meta = {'kind': 'Reactor.__call__ one_shot=False', 'patterns': pats, 'products': prods_t, 'reactants': rs, 'limit': limit,
+                    'stage_calls': len(calls), 'yielded': len(real), 'molecules': len(toks)}
+            # yields (order, products) and the sequence of stages: an unrecorded stage asked for by the model ends it with OtherError
+            batch.add(f'exh_eqb (exhaustive Z Z Z.eqb {funs}) ({yields}, {e}) && '
+                      f'trace_eqb (exhaustive_trace Z Z Z.eqb {funs}) {lst([tl(rec["ctoks"]) for rec in calls])}', meta)
             ck.count('queue:' + ('raises' if e != 'None' else 'several generations' if len(calls) > len(list(permutations(idx, len(pats)))) else 'first generation only'))
             ck.case(('queue', pats, rs, variant), nontrivial=len(real) > 0)
             if len({str(r) for r in real}) != len(real):
@@ -1192,13 +1222,17 @@ def check_product(ck, t, mol, mapping0, prod, smi, tname, frame=True):
     rep = t._replacement
     # read from the template itself, not from t._to_delete: matched atoms that are not masked and absent from the replacement
     pattern_atoms = [(k, a) for q in ([t._pattern] if hasattr(t, '_pattern') else t._patterns) for k, a in q.atoms()]
-    D = {mapping0[k] for k, a in pattern_atoms if not a.masked and k not in rep}
+    rep_keys = set(rep)      # (`k in rep` is not a key test for a MoleculeContainer)
+    D = {mapping0[k] for k, a in pattern_atoms if not a.masked and k not in rep_keys}
     K = set(mapping0.values()) - D
     deleted = oracle_deleted(bonds, D, K)
     new_atoms = [n for n in rep if n not in mapping0]
     expect = (set(mol) - deleted) | set(range(max(mol) + 1, max(mol) + 1 + len(new_atoms)))
+    from chython.containers import MoleculeContainer as _MC
+    rep_code = f"smiles({format(rep, 'm')!r})" if isinstance(rep, _MC) else f"smarts({str(rep)!r})"
     rp = (f"from chython import smiles, smarts\nfrom chython.reactor import Transformer\n"
-          f"t = Transformer(smarts({str(getattr(t, '_pattern', ''))!r}), smarts({str(rep)!r}))\nprint([str(x) for x in t(smiles({smi!r}))])")
+          f"t = Transformer(smarts({str(getattr(t, '_pattern', ''))!r}), {rep_code}, fix_aromatic_rings=False)\n"
+          f"print([(str(x), [(n, a.implicit_hydrogens) for n, a in x.atoms()]) for x in t(smiles({smi!r}))])")
 
     def bad(key, what, obs, exp):
         k = f'{key}:{tname}:{smi}:{sorted(mapping0.items())}'
@@ -1253,6 +1287,23 @@ def check_product(ck, t, mol, mapping0, prod, smi, tname, frame=True):
         if (pa.atomic_number, pa.isotope, pa.charge, pa.is_radical) != (want_el, want_iso, ra.charge, ra.is_radical):
             bad('named-atom', f'replacement atom {n} does not have the requested element/isotope/charge/radical', (pa.atomic_number, pa.isotope, pa.charge, pa.is_radical),
                 (want_el, want_iso, ra.charge, ra.is_radical))
+    # hydrogens of the replacement atoms: a NEW atom takes the count written in the patch (Element: its count; query atom: its h
+    # clause), every other count -- in particular that of a matched atom the patch re-types -- is what the valence rules give
+    # for the product (molecule rebuilt from scratch)
+    from chython.periodictable import Element as _Element
+    reb = rebuilt_hydrogens(prod)
+    for n, ra in rep.atoms():
+        pa = prod._atoms[img(n)]
+        if n not in mapping0 and not isinstance(ra, AnyElement):
+            want_h = ra.implicit_hydrogens if isinstance(ra, _Element) else (ra.implicit_hydrogens[0] if ra.implicit_hydrogens else None)
+            if want_h is not None:
+                if pa.implicit_hydrogens != want_h:
+                    bad('new-atom-hydrogens', f'new atom {n} does not carry the hydrogen count of the patch', pa.implicit_hydrogens, want_h)
+                continue
+        want_h = reb.get(img(n))
+        if want_h is not None and pa.implicit_hydrogens != want_h:
+            bad('named-hydrogens', f'replacement atom {n} (atom {img(n)} of the product) has a hydrogen count that is not the one of its valence state in the product',
+                {'implicit_hydrogens': pa.implicit_hydrogens, 'neighbours': {k: int(bd) for k, bd in prod._bonds[img(n)].items()}}, {'implicit_hydrogens': want_h})
     for n, k, rb in rep.bonds():
         if int(prod._bonds[img(n)].get(img(k), 0)) != int(rb):
             bad('named-bond', f'replacement bond {n}-{k} does not have the requested order', int(prod._bonds[img(n)].get(img(k), 0)), int(rb))
@@ -1267,7 +1318,7 @@ def search_templates(ck):
     from chython.reactor import deprotection as dp
     rng = random.Random(f'{ck.seed}:c16st')
     quick = ck.tier == 'quick'
-    pool = DECORATED + STEREO + BRIDGED + corpus.sample(corpus.lipo(), 150 if quick else 1500, ck.seed, 'c16s')
+    pool = HALIDES + DECORATED + STEREO + BRIDGED + corpus.sample(corpus.lipo(), 150 if quick else 1500, ck.seed, 'c16s')
     mols = []
     for smi in pool:
         try:
@@ -1278,7 +1329,7 @@ def search_templates(ck):
             mols.append((smi, m))
     templates = []
     for pat, rep, what in SYNTHETIC:
-        if rep.startswith('mol:') or '[A:9]' in rep:
+        if '[A:9]' in rep:
             continue
         templates.append((f'{pat}>>{rep}', pat, rep, []))
     for gname in dp._groups:
@@ -1286,7 +1337,8 @@ def search_templates(ck):
             templates.append((f'deprotection.{gname}', r, p, tests[:1]))
     n_prod = 0
     for tname, pat, rep, tests in templates:
-        pq, rq = smarts(pat), smarts(rep)      # parsed once: unlabelled atoms get the same numbers in both transformers
+        # parsed once: unlabelled atoms get the same numbers in both transformers
+        pq, rq = smarts(pat), (smiles(rep[4:]) if rep.startswith('mol:') else smarts(rep))
         t_raw = Transformer(pq, rq, fix_aromatic_rings=False)
         t_def = Transformer(pq, rq)
         extra = []
@@ -1624,6 +1676,63 @@ def search_reactor_synthetic(ck):
     ck.extra['reactor_synthetic_reactions_checked'] = n
 
 
+def search_exhaustive_closure(ck):
+    """one-pattern templates in exhaustive mode: the product states Reactor(one_shot=False) yields are exactly the states that
+    1..polymerise_limit single-site applications reach from the reactants, whichever molecule of the state is edited.  The
+    reference closure is computed with Transformer on one molecule at a time (no Reactor code involved)."""
+    from chython import smiles, smarts
+    from chython.reactor import Reactor, Transformer
+    rng = random.Random(f'{ck.seed}:c16closure')
+    cases = [
+        ('[C:1][Br:2]', '[A:1][O:3]', [('CCBr', 'BrCCCBr'), ('CCBr', 'CCCBr'), ('CBr', 'CCBr', 'C'), ('BrCCBr',), ('CCBr', 'BrCC(C)Br', 'OCC')], 5),
+        ('[C:1]#[N:2]', '[A:1](=[A:2])[O:3]', [('CC#N', 'N#CCC#N'), ('N#CC', 'CC#N', 'CCC#N')], 4),
+        ('[C:1][O;D1:2]', '[A:1][A:2][C:3](=[O:4])[C:5]', [('CO', 'OCCO'), ('CCO', 'CO', 'OC(C)C')], 4),
+        ('[C:1]=[O:2]', '[A:1]-[A:2]', [('CC=O', 'O=CCC=O', 'CCC')], 2),
+    ]
+    n = 0
+    for pat, rep_, rsets, limit in cases:
+        tr = Transformer(smarts(pat), smarts(rep_), fix_aromatic_rings=False, automorphism_filter=False)
+        for rs, variant in itertools.product(rsets, range(2 if ck.tier == 'quick' else 5)):
+            rx = Reactor((smarts(pat),), (smarts(rep_),), one_shot=False, polymerise_limit=limit, fix_aromatic_rings=False, automorphism_filter=False)
+            ms = [smiles(x) for x in rs]
+            if variant:
+                ms = [sparse_renumber(m, rng) for m in ms]
+                rng.shuffle(ms)
+            rp = (f"from chython import smiles, smarts\nfrom chython.reactor import Reactor\nrx = Reactor((smarts({pat!r}),), (smarts({rep_!r}),), one_shot=False, "
+                  f"polymerise_limit={limit}, fix_aromatic_rings=False, automorphism_filter=False)\n"
+                  f"print(sorted('.'.join(sorted(str(p) for p in r.products)) for r in rx(*[smiles(x) for x in {rs!r}])))")
+            def state_key(mols):
+                return tuple(sorted(x for m in mols for x in rdkit_canon(m).split('.')))
+            try:
+                got = {state_key(r.products) for r in itertools.islice(rx(*ms), 2000)}
+            except Exception as e:
+                ck.counterexample(f'exhaustive-raises:{pat}>>{rep_}:{rs}', f'Reactor(one_shot=False) raises {type(e).__name__}', {'template': f'{pat}>>{rep_}', 'reactants': rs},
+                                  f'{type(e).__name__}: {e}', 'reactions', 'no exception expected', replay_py=rp)
+                continue
+            # reference: breadth-first closure, one molecule of the state edited per step
+            level = [tuple(ms)]
+            want = set()
+            for _ in range(limit):
+                nxt = []
+                for state in level:
+                    for i, mol in enumerate(state):
+                        for prod in tr(mol):
+                            new_state = (*state[:i], prod, *state[i + 1:])
+                            key = state_key(new_state)
+                            if key not in want:
+                                want.add(key)
+                                nxt.append(new_state)
+                level = nxt
+            n += 1
+            ck.case(('closure', pat, rep_, rs, variant), nontrivial=len(want) > 1)
+            ck.count('search:exhaustive-closure:' + ('several reactive molecules' if sum(1 for m in ms if next(iter(tr(m)), None) is not None) > 1 else 'one reactive molecule'))
+            if got != want:
+                ck.counterexample(f'exhaustive-closure:{pat}>>{rep_}:{rs}', 'Reactor(one_shot=False) does not yield exactly the product states reachable by repeated single applications '
+                                  '(every molecule of a state, reacted or not, can be edited next)', {'template': f'{pat}>>{rep_}', 'reactants': rs, 'polymerise_limit': limit},
+                                  {'missing': sorted(want - got)[:10], 'unexpected': sorted(got - want)[:10]}, f'{len(want)} product states',
+                                  'breadth-first closure with Transformer on one molecule at a time', replay_py=rp)
+    ck.extra['exhaustive_closures_checked'] = n
+
 def run(ck):
     ck.trusted += ['correspondence runner harness/checks/C16.py + harness/coqcases.py + harness/coqmol.py', 'CachedMethods shim harness/boot.py',
                    'CPython 3.12.1', 'RDKit 2026.3 (search only: GetMolFrags as second component oracle)']
@@ -1666,6 +1775,7 @@ def run(ck):
     tied = timed('search equivariance + rename tie', equivariance_step) and tied
     timed('search reactor', search_reactor)
     timed('search reactor synthetic', search_reactor_synthetic)
+    timed('search exhaustive closure', search_exhaustive_closure)
     ck.extra['step_seconds'] = steps
     ck.extra['proved'] = proved
     ck.extra['tied'] = tied
